@@ -118,6 +118,8 @@ def run(chk, fb, tier):
     _d5(chk, fb)
     # ---------------- D4
     _d4(chk, fb, tier)
+    chk.rule("D6", "half-line constructor of IntervalConstraint: in each arm of the orientation flag the finite end carries the caller's inclusion flag and the infinite end is open")
+    _d6(chk, fb)
 
     from . import copyrule
     chk.rule("DC", "copy constructor and copy assignment copy the same members; operator= empties a member container before re-populating it; copy functions never assign through a stored shared pointer")
@@ -182,6 +184,46 @@ def _through(cfg, f, sites, target=None):
         else:
             blocks.add(b)
     return blocks, same
+
+
+def _d6(chk, fb):
+    """half-line constructor IntervalConstraint(isPositive, bound, incl, ...): four member initialisers select on the same flag.
+    In each arm the end that receives 'bound' receives 'incl' as its inclusion flag and the infinite end receives 'false'"""
+    n = 0
+    for f in fb.q(IC + "::IntervalConstraint"):
+        if not f.rec.get("ctor") or len(f.params) < 3 or (f.params[0].get("ty") or "") != "bool":
+            continue
+        flag, bound, incl = f.params[0]["name"], f.params[1]["name"], f.params[2]["name"]
+        ini = {}
+        for i in f.rec.get("inits", []):
+            if i.get("fname") in ("lowerBound_", "upperBound_", "inclLowerBound_", "inclUpperBound_") and i.get("expr") is not None:
+                e = strip(f.nodes.get(i["expr"]) if isinstance(i["expr"], int) else i["expr"])
+                if e["k"] == "ConditionalOperator" and render(kids(e)[0]) == flag:
+                    ini[i["fname"]] = (render(kids(e)[1]), render(kids(e)[2]))
+        if len(ini) != 4:
+            chk.unknown("D6", f.key, "half-line-arms", f.loc(), "the four initialisers are not conditional expressions on '%s'" % flag)
+            n += 1
+            continue
+        n += 1
+        bad = None
+        for arm in (0, 1):
+            for b_, i_ in (("lowerBound_", "inclLowerBound_"), ("upperBound_", "inclUpperBound_")):
+                finite = ini[b_][arm] == bound
+                infinite = "INF" in ini[b_][arm] or "infinity" in ini[b_][arm]
+                got = ini[i_][arm]
+                if finite and got != incl and got in ("false", "true", incl):
+                    bad = (arm, b_, i_, got, incl)
+                if infinite and got != "false" and got in ("false", "true", incl):
+                    bad = (arm, b_, i_, got, "false")
+        if bad:
+            arm, b_, i_, got, want = bad
+            chk.refuted("D6", f.key, "half-line-arms", f.loc(),
+                        "for %s == %s, %s is %s but %s is '%s' instead of '%s': the finite end must carry the caller's inclusion flag and the infinite end must be open" % (
+                            flag, "true" if arm == 0 else "false", b_, ini[b_][arm], i_, got, want),
+                        witness={"input": "IntervalConstraint(%s, b, true): isCorrect(b)" % ("true" if arm == 0 else "false")})
+        else:
+            chk.proved("D6", f.key, "half-line-arms", f.loc(), "in both arms the finite end gets '%s' and the infinite end 'false'" % incl)
+    chk.floor("D6", "half-line constructors", n, 1)
 
 
 def _init_of(f, field):
